@@ -181,24 +181,24 @@ Hypothesis Hids : inc 0 (wires nl).
 Hypothesis Hwidths : forallb (fun x => 0 <=? wwidth x) (wires nl) = true.
 
 Lemma KK_pos : 1 <= KK.
-Proof. unfold Flatten.KK. pose proof maxw_nonneg. lia. Qed.
+Proof. pose proof Hids as Hids_u. pose proof Hwidths as Hwidths_u.  unfold Flatten.KK. pose proof maxw_nonneg. lia. Qed.
 
 Lemma NN_pos : 1 <= NN.
-Proof. unfold Flatten.NN. pose proof maxid_nonneg. lia. Qed.
+Proof. pose proof Hids as Hids_u. pose proof Hwidths as Hwidths_u.  unfold Flatten.NN. pose proof maxid_nonneg. lia. Qed.
 
 Lemma wire_bounds x : In x (wires nl) -> 0 < wname x < NN /\ 0 <= wwidth x < KK.
-Proof.
+Proof. pose proof Hids as Hids_u. pose proof Hwidths as Hwidths_u. 
   intro H. pose proof (maxid_ge x H). pose proof (maxw_ge x H). pose proof (inc_lower _ _ _ Hids H).
   rewrite forallb_forall in Hwidths. specialize (Hwidths x H). unfold Flatten.NN, Flatten.KK. lia.
 Qed.
 
 Lemma xnat_lt x : In x (wires nl) -> Z.of_nat (xnat x) < KK.
-Proof. intro H. destruct (wire_bounds x H) as [_ Hw]. unfold xnat. lia. Qed.
+Proof. pose proof Hids as Hids_u. pose proof Hwidths as Hwidths_u.  intro H. destruct (wire_bounds x H) as [_ Hw]. unfold xnat. lia. Qed.
 
 (* decoding a bit id *)
 Lemma bid_decode w (i : nat) : 0 <= w -> Z.of_nat i < KK ->
   (bid w i - NN) / KK = w /\ (bid w i - NN) mod KK = Z.of_nat i.
-Proof.
+Proof. pose proof Hids as Hids_u. pose proof Hwidths as Hwidths_u. 
   intros Hw Hi. unfold Flatten.bid.
   replace (NN + w * KK + Z.of_nat i - NN) with (Z.of_nat i + w * KK) by lia.
   pose proof KK_pos. rewrite Z.div_add, Z.mod_add by lia.
@@ -207,14 +207,14 @@ Qed.
 
 Lemma bid_inj w i w' i' : 0 <= w -> 0 <= w' -> Z.of_nat i < KK -> Z.of_nat i' < KK ->
   bid w i = bid w' i' -> w = w' /\ i = i'.
-Proof.
+Proof. pose proof Hids as Hids_u. pose proof Hwidths as Hwidths_u. 
   intros Hw Hw' Hi Hi' E.
   destruct (bid_decode w i Hw Hi) as [D1 D2]. destruct (bid_decode w' i' Hw' Hi') as [D1' D2'].
   rewrite E in D1, D2. split; lia.
 Qed.
 
 Lemma bid_range w i : 0 <= w < NN -> Z.of_nat i < KK -> NN <= bid w i < T0.
-Proof. intros Hw Hi. unfold Flatten.bid, Flatten.T0. pose proof KK_pos. nia. Qed.
+Proof. pose proof Hids as Hids_u. pose proof Hwidths as Hwidths_u.  intros Hw Hi. unfold Flatten.bid, Flatten.T0. pose proof KK_pos. nia. Qed.
 
 End Ids.
 
@@ -260,8 +260,8 @@ Definition bw (l : list wire) : list wire :=
 
 Lemma bw_inc l : forall lo, inc lo l -> 0 <= lo -> (forall x, In x l -> Z.of_nat (xnat x) < KK) ->
   inc (NN + (lo + 1) * KK - 1) (bw l).
-Proof.
-  pose proof (KK_pos nl) as HK.
+Proof. pose proof Hids as Hids_u. pose proof Hwidths as Hwidths_u. 
+  pose proof (KK_pos nl Hids Hwidths) as HK.
   induction l as [|x r IH]; intros lo Hi Hlo Hx; [exact I|].
   cbn [inc] in Hi. destruct Hi as [H1 H2]. cbn [bw flat_map]. fold (bw r).
   destruct (seq_bit_wires (wname x) (bit_kind merge x) (xnat x) 0%nat) as [S1 S2].
@@ -274,15 +274,15 @@ Proof.
 Qed.
 
 Lemma bw_below l : (forall x, In x l -> 0 < wname x < NN /\ Z.of_nat (xnat x) < KK) -> below T0 (bw l).
-Proof.
-  pose proof (KK_pos nl) as HK. intros H d Hd. unfold bw in Hd. apply in_flat_map in Hd.
+Proof. pose proof Hids as Hids_u. pose proof Hwidths as Hwidths_u. 
+  pose proof (KK_pos nl Hids Hwidths) as HK. intros H d Hd. unfold bw in Hd. apply in_flat_map in Hd.
   destruct Hd as [x [Hx Hd]]. apply in_map_iff in Hd. destruct Hd as [i [<- Hi]]. apply in_seq in Hi.
-  destruct (H x Hx) as [Hn Hw]. cbn [wname]. apply bid_range; lia.
+  destruct (H x Hx) as [Hn Hw]. cbn [wname]. apply bid_range; try assumption; lia.
 Qed.
 
 Lemma table_inc : inc 0 (wires nl').
-Proof.
-  rewrite flatten_wires. pose proof (NN_pos nl) as HN. pose proof (KK_pos nl) as HK.
+Proof. pose proof Hids as Hids_u. pose proof Hwidths as Hwidths_u. 
+  rewrite flatten_wires. pose proof (NN_pos nl Hids Hwidths) as HN. pose proof (KK_pos nl Hids Hwidths) as HK.
   apply (inc_app 0 (NN - 1)).
   - unfold vec_wires. destruct merge; [apply inc_filter; exact Hids|exact I].
   - intros x Hx. unfold vec_wires in Hx. destruct merge; [|contradiction].
@@ -290,7 +290,7 @@ Proof.
   - lia.
   - apply (inc_app (NN - 1) (T0 - 1)).
     + apply (inc_weaken (NN + (0 + 1) * KK - 1)); [lia|].
-      apply (bw_inc (wires nl) 0 Hids); [lia|]. intros x Hx. apply (xnat_lt nl Hids Hwidths x Hx).
+      apply (bw_inc (wires nl) 0); [exact Hids|lia|]. intros x Hx. apply (xnat_lt nl Hids Hwidths x Hx).
     + replace (T0 - 1 + 1) with T0 by lia. apply bw_below. intros x Hx.
       destruct (wire_bounds nl Hids Hwidths x Hx). split; [assumption|]. apply (xnat_lt nl Hids Hwidths x Hx).
     + unfold Flatten.T0. nia.
@@ -298,17 +298,17 @@ Proof.
 Qed.
 
 Lemma lookup d : In d (wires nl') -> find_wire (wires nl') (wname d) = Some d.
-Proof. apply (inc_find 0). apply table_inc. Qed.
+Proof. pose proof Hids as Hids_u. pose proof Hwidths as Hwidths_u.  apply (inc_find 0). apply table_inc. Qed.
 
 Lemma lookup_width d : In d (wires nl') -> width_of nl' (wname d) = wwidth d.
-Proof. intro H. unfold width_of. rewrite (lookup d H). reflexivity. Qed.
+Proof. pose proof Hids as Hids_u. pose proof Hwidths as Hwidths_u.  intro H. unfold width_of. rewrite (lookup d H). reflexivity. Qed.
 
 Lemma lookup_kind d : In d (wires nl') -> kind_of nl' (wname d) = wkind d.
-Proof. intro H. unfold kind_of. rewrite (lookup d H). reflexivity. Qed.
+Proof. pose proof Hids as Hids_u. pose proof Hwidths as Hwidths_u.  intro H. unfold kind_of. rewrite (lookup d H). reflexivity. Qed.
 
 Lemma bit_decl x i : In x (wires nl) -> (i < xnat x)%nat ->
   In (mkWire (bid (wname x) i) 1 (bit_kind merge x i)) (wires nl').
-Proof.
+Proof. pose proof Hids as Hids_u. pose proof Hwidths as Hwidths_u. 
   intros Hx Hi. rewrite flatten_wires. apply in_or_app. right. apply in_or_app. left.
   unfold bit_wires. apply in_flat_map. exists x. split; [assumption|].
   apply in_map_iff. exists i. split; [reflexivity|]. apply in_seq. lia.
@@ -814,7 +814,7 @@ Proof.
   destruct (orig_lookup a ltac:(lia)) as (x & Hx & Hn & Hf). exists x.
   assert (Hxn : (i < xnat x)%nat).
   { unfold xnat. unfold width_of in Hi. rewrite Hf in Hi. exact Hi. }
-  pose proof (bit_decl merge nl Hwidths x i Hx Hxn) as Hd. rewrite Hn in Hd.
+  pose proof (bit_decl merge nl Hids Hwidths x i Hx Hxn) as Hd. rewrite Hn in Hd.
   destruct (wire_bounds nl Hids Hwidths x Hx) as [B1 B2]. rewrite Hn in B1.
   pose proof (xnat_lt nl Hids Hwidths x Hx) as B3.
   repeat split; try assumption; try lia.
@@ -981,6 +981,35 @@ Proof.
     - intros k Hk. apply (bid_neq merge nl Hids Hwidths); assumption. }
   pose proof (lower_closed nl n Hso Har) as Hcl.
   pose proof (lower_len n Hso Har Hc) as Hlen0.
+  assert (Hgen : synth_net nl n = GAssign (ndest n) (lower nl n) -> length (lower nl n) = wnat (ndest n) ->
+            Inv (ndest n :: rdy) (runs (fst (emit_gnet nl (synth_net nl n) base)) vf)
+                (gnet_exec nl gst bv (synth_net nl n))
+            /\ (forall id, ~ (base <= id < base + gnet_size (synth_net nl n)) ->
+                  (forall k, (k < wnat (ndest n))%nat -> id <> bid (ndest n) k) ->
+                  runs (fst (emit_gnet nl (synth_net nl n) base)) vf id = vf id)).
+  { intros Esyn Hlen. rewrite Esyn in *. cbn [emit_gnet fst snd gnet_size gnet_exec] in *.
+    destruct (emit_bits_sound merge nl Hids Hwidths st bv (Qn nl n) (ndest n) (lower nl n) 0%nat base vf)
+      as [E1 E2]; try assumption.
+    - intros a i Hq. unfold Qn in Hq. apply andb_true_iff in Hq. destruct Hq as [Hq1 Hq2].
+      apply mem_in_In in Hq1. apply Nat.ltb_lt in Hq2.
+      destruct (bit_static merge nl Hids Hwidths a i Hq2) as (_ & _ & _ & _ & S1 & _ & S2 & _).
+      split; [assumption|]. split; [apply HI; [apply Hin; assumption|assumption]|lia].
+    - intros a i k Hq Hk. unfold Qn in Hq. apply andb_true_iff in Hq. destruct Hq as [Hq1 Hq2].
+      apply mem_in_In in Hq1. apply Nat.ltb_lt in Hq2.
+      apply (bid_neq merge nl Hids Hwidths); [assumption|lia|].
+      intro E. subst. apply Hnd, Hin. assumption.
+    - intros k Hk. cbn [Nat.add].
+      destruct (bit_static merge nl Hids Hwidths (ndest n) k ltac:(lia)) as (_ & _ & _ & _ & S1 & _ & S2 & _).
+      split; [assumption|lia].
+    - cbv zeta in E1, E2. cbn [Nat.add] in E1, E2.
+      assert (Hfr : forall id, ~ (base <= id < base + bits_size (lower nl n)) ->
+                (forall k, (k < wnat (ndest n))%nat -> id <> bid (ndest n) k) ->
+                runs (fst (emit_bits nl (ndest n) 0 (lower nl n) base)) vf id = vf id).
+      { intros id Hid Hk. apply E2; [assumption|]. intros k Hk'. apply Hk. lia. }
+      split; [|exact Hfr].
+      eapply Hother; [exact Hfr|reflexivity|].
+      intros k Hk. rewrite E1 by lia. unfold updbits. rewrite Z.eqb_refl.
+      change false with (geval bv (GConst false)). rewrite map_nth. reflexivity. }
   cbv zeta. destruct (nop n) eqn:Eop; try discriminate Hc.
   (* memory read port *)
   16:{ unfold synth_net in *. rewrite Eop in *. cbn [emit_gnet fst snd gnet_size gnet_exec] in *.
@@ -1018,34 +1047,8 @@ Proof.
        unfold updbits. rewrite Z.eqb_refl. rewrite nth_of_Z by assumption.
        unfold data. rewrite Z.mod_pow2_bits_low by lia. reflexivity. }
   (* every other combinational op: gate expressions per destination bit *)
-  all: unfold synth_net in *; rewrite Eop in Hdecl, Hconst, Hother |- *; cbn [emit_gnet fst snd gnet_size gnet_exec] in *;
-    (assert (Hlen : length (lower nl n) = wnat (ndest n)) by (apply Hlen0; intros; discriminate));
-    (destruct (emit_bits_sound merge nl Hids Hwidths st bv (Qn nl n) (ndest n) (lower nl n) 0%nat base vf)
-       as [E1 E2];
-     [ assumption | assumption | assumption | assumption
-     | intros a i Hq; unfold Qn in Hq; apply andb_true_iff in Hq; destruct Hq as [Hq1 Hq2];
-       apply mem_in_In in Hq1; apply Nat.ltb_lt in Hq2;
-       destruct (bit_static merge nl Hids Hwidths a i Hq2) as (_ & _ & _ & _ & S1 & _ & S2 & _);
-       split; [assumption|]; split; [apply HI; [apply Hin; assumption|assumption]|lia]
-     | intros a i k Hq Hk; unfold Qn in Hq; apply andb_true_iff in Hq; destruct Hq as [Hq1 Hq2];
-       apply mem_in_In in Hq1; apply Nat.ltb_lt in Hq2;
-       apply (bid_neq merge nl Hids Hwidths); [assumption|lia|];
-       intro E; subst; apply Hnd, Hin; assumption
-     | intros k Hk; cbn [Nat.add];
-       destruct (bit_static merge nl Hids Hwidths (ndest n) k ltac:(lia)) as (_ & _ & _ & _ & S1 & _ & S2 & _);
-       split; [assumption|lia]
-     | ]);
-    cbv zeta in E1, E2; cbn [Nat.add] in E1, E2;
-    (assert (Hfr : forall id, ~ (base <= id < base + bits_size (lower nl n)) ->
-               (forall k, (k < wnat (ndest n))%nat -> id <> bid (ndest n) k) ->
-               runs (fst (emit_bits nl (ndest n) 0 (lower nl n) base)) vf id = vf id)
-       by (intros id Hid Hk; apply E2; [assumption|intros k Hk'; apply Hk; lia]));
-    (split; [|exact Hfr]);
-    (eapply Hother; [exact Hfr|reflexivity|]);
-    intros k Hk; rewrite E1 by lia; unfold updbits; rewrite Z.eqb_refl;
-    change false with (geval bv (GConst false)); rewrite map_nth; reflexivity.
+  all: apply Hgen; [unfold synth_net; rewrite Eop; reflexivity|apply Hlen0; intros; discriminate].
 Qed.
-
 
 Lemma inv_frame rdy vf vf' bv base : T0 <= base -> Inv rdy vf bv ->
   (forall id, id < base -> vf' id = vf id) -> Inv rdy vf' bv.
@@ -1203,3 +1206,370 @@ Proof.
 Qed.
 
 End FlatSeg.
+
+(* ------------------------------------------------------------------ inputs, outputs, the whole combinational phase *)
+
+Lemma fold_filter_id {A X} (f : A -> X -> A) (p : X -> bool) l :
+  (forall a x, p x = false -> f a x = a) -> forall a, fold_left f (filter p l) a = fold_left f l a.
+Proof.
+  intro H. induction l as [|x r IH]; intro a; cbn [filter fold_left]; [reflexivity|].
+  destruct (p x) eqn:E; cbn [fold_left]; [apply IH|]. rewrite (H a x E). apply IH.
+Qed.
+
+Lemma nets_ok_filter nl : forall ns rdy, nets_ok nl rdy ns = true ->
+  nets_ok nl rdy (filter (fun n => is_comb (nop n)) ns) = true
+  /\ fold_left rdy_next (filter (fun n => is_comb (nop n)) ns) rdy = fold_left rdy_next ns rdy.
+Proof.
+  induction ns as [|n r IH]; intros rdy H; [split; reflexivity|].
+  cbn [WFDefs.nets_ok] in H. apply andb_true_iff in H. destruct H as [H1 H2].
+  cbn [filter fold_left]. destruct (is_comb (nop n)) eqn:E.
+  - cbn [WFDefs.nets_ok fold_left]. rewrite H1. destruct (IH _ H2) as [I1 I2]. split; assumption.
+  - assert (Er : rdy_next rdy n = rdy) by (unfold rdy_next; rewrite E; reflexivity).
+    rewrite Er in *. apply IH. assumption.
+Qed.
+
+Section FlatFinal.
+Variable merge : bool.
+Variable nl : netlist.
+Hypothesis Hids : inc 0 (wires nl).
+Hypothesis Hwf : wfb nl = true.
+Hypothesis Hsy : synth_okb nl = true.
+
+Local Notation bid := (bid nl).
+Local Notation KK := (KK nl).
+Local Notation NN := (NN nl).
+Local Notation T0 := (T0 nl).
+Local Notation nl' := (flatten merge nl).
+Local Notation wnat := (wnat nl).
+
+Lemma Hwidths : forallb (fun x => 0 <=? wwidth x) (wires nl) = true.
+Proof. apply (wfb_parts nl Hwf). Qed.
+
+Variable st : state.
+Variable gst : gstate.
+Variable ins : wid -> Z.
+Hypothesis Hins : legal_ins nl ins.
+
+(* the state of the flattened block spells the gate-level state *)
+Definition Rf (st : state) (gst : gstate) : Prop :=
+  (forall r i, is_reg_w nl r = true -> (i < wnat r)%nat -> sregs st (bid r i) = b2z (gregs gst r i))
+  /\ (forall m a, smems st m a = gmems gst m a).
+Hypothesis HR : Rf st gst.
+
+Local Notation runs := (runs merge nl st).
+Local Notation Inv := (Inv nl).
+
+Definition vf0 : wid -> Z := base_val nl' 0 st (flat_ins nl ins).
+
+Lemma base_of_decl d : In d (wires nl') ->
+  vf0 (wname d) = match wkind d with
+                  | KConst c => c
+                  | KInput => flat_ins nl ins (wname d)
+                  | KReg _ => sregs st (wname d)
+                  | _ => 0
+                  end.
+Proof.
+  intro H. unfold vf0, base_val. rewrite (lookup merge nl Hids Hwidths d H). reflexivity.
+Qed.
+
+Lemma flat_ins_bit a i : 0 < a -> Z.of_nat i < KK ->
+  flat_ins nl ins (bid a i) = b2z (Z.testbit (ins a) (Z.of_nat i)).
+Proof.
+  intros Ha Hi. unfold flat_ins.
+  destruct (bid_decode nl Hids Hwidths a i ltac:(lia) Hi) as [D1 D2].
+  assert (NN <= bid a i) by (unfold Flatten.bid; pose proof (KK_pos nl Hids Hwidths); nia).
+  destruct (bid a i <? NN) eqn:E; [lia|]. rewrite D1, D2. reflexivity.
+Qed.
+
+Lemma const_bit_01 c (i : nat) : g_const_bit c (Z.of_nat i) = b2z (negb (g_const_bit c (Z.of_nat i) =? 0)).
+Proof.
+  unfold g_const_bit. rewrite land1_shiftr by lia. destruct (Z.testbit c (Z.of_nat i)); reflexivity.
+Qed.
+
+(* one select per bit off every merged Input vector *)
+Lemma in_nets_sound (l : list wire) : forall lo vf,
+  inc lo l -> (forall x, In x l -> In x (wires nl)) ->
+  let ns := flat_map (fun x => map (fun i => mkNet (OpSelect [Z.of_nat i]) [wname x] (bid (wname x) i))
+                                   (seq 0 (xnat x))) l in
+  (forall x i, In x l -> (i < xnat x)%nat ->
+     runs ns vf (bid (wname x) i) = b2z (Z.testbit (vf (wname x)) (Z.of_nat i)))
+  /\ (forall id, (forall x i, In x l -> (i < xnat x)%nat -> id <> bid (wname x) i) -> runs ns vf id = vf id).
+Proof.
+  pose proof Hwidths as Hw.
+  induction l as [|y r IH]; intros lo vf Hinc Hsub; cbv zeta.
+  - cbn [flat_map]. unfold FlattenProofs.runs. cbn [fold_left]. split; [intros x i []|reflexivity].
+  - cbn [inc] in Hinc. destruct Hinc as [H1 H2]. cbn [flat_map]. rewrite runs_app.
+    pose proof (Hsub y (or_introl eq_refl)) as Hy.
+    destruct (wire_bounds nl Hids Hw y Hy) as [By1 By2].
+    assert (Hxy : xnat y = wnat (wname y)).
+    { unfold xnat, Synth.wnat, width_of. rewrite (inc_find 0 _ y Hids Hy). reflexivity. }
+    destruct (run_selects merge nl Hids Hw st (wname y) (wname y) (xnat y) 0%nat vf) as [S1 S2].
+    { intros i Hi. rewrite Hxy in Hi.
+      destruct (bit_static merge nl Hids Hw (wname y) i ltac:(lia)) as (_ & _ & _ & _ & Q1 & _ & Q2 & _).
+      split; [assumption|lia]. }
+    cbv zeta in S1, S2.
+    set (vf1 := runs (map (fun i => mkNet (OpSelect [Z.of_nat i]) [wname y] (bid (wname y) i)) (seq 0 (xnat y))) vf) in *.
+    destruct (IH (wname y) vf1 H2 (fun x Hx => Hsub x (or_intror Hx))) as [I1 I2]. cbv zeta in I1, I2.
+    assert (Hdisj : forall x i k, In x r -> (i < xnat x)%nat -> (k < xnat y)%nat ->
+              bid (wname x) i <> bid (wname y) k).
+    { intros x i k Hx Hi Hk. pose proof (inc_lower _ _ _ H2 Hx) as Hlt.
+      pose proof (Hsub x (or_intror Hx)) as Hxw.
+      assert (Hxx : xnat x = wnat (wname x)).
+      { unfold xnat, Synth.wnat, width_of. rewrite (inc_find 0 _ x Hids Hxw). reflexivity. }
+      apply (bid_neq merge nl Hids Hw); [lia|lia|lia]. }
+    split.
+    + intros x i [<-|Hx] Hi.
+      * rewrite I2 by (intros x' i' Hx' Hi' E; symmetry in E; revert E; apply Hdisj; assumption).
+        apply S1. lia.
+      * rewrite I1 by assumption. f_equal. f_equal. apply S2.
+        intros k Hk. pose proof (Hsub x (or_intror Hx)) as Hxw.
+        destruct (wire_bounds nl Hids Hw x Hxw) as [Bx _].
+        rewrite Hxy in Hk.
+        destruct (bit_static merge nl Hids Hw (wname y) k ltac:(lia)) as (_ & _ & _ & _ & _ & _ & Q2 & _). lia.
+    + intros id Hid. rewrite I2 by (intros x i Hx Hi; apply Hid; [right; assumption|assumption]).
+      apply S2. intros k Hk. apply Hid; [left; reflexivity|lia].
+Qed.
+
+
+(* one concat per merged Output vector *)
+Lemma out_nets_sound bv (Hm : merge = true) (l : list wire) : forall lo vf,
+  inc lo l -> (forall x, In x l -> In x (wires nl) /\ is_io x = true) ->
+  (forall x i, In x l -> (i < xnat x)%nat -> vf (bid (wname x) i) = b2z (bv (wname x) i)) ->
+  let ns := map (fun x => cat_net nl (wname x) (xnat x) (wname x)) l in
+  (forall x, In x l -> runs ns vf (wname x) = bits_val bv (wname x) (xnat x))
+  /\ (forall id, (forall x, In x l -> id <> wname x) -> runs ns vf id = vf id).
+Proof.
+  pose proof Hwidths as Hw.
+  induction l as [|y r IH]; intros lo vf Hinc Hsub Hbits; cbv zeta.
+  - cbn [map]. unfold FlattenProofs.runs. cbn [fold_left]. split; [intros x []|reflexivity].
+  - cbn [inc] in Hinc. destruct Hinc as [H1 H2]. cbn [map].
+    change (?x :: ?t) with ([x] ++ t). rewrite runs_app.
+    destruct (Hsub y (or_introl eq_refl)) as [Hy Hio].
+    destruct (wire_bounds nl Hids Hw y Hy) as [By1 By2].
+    assert (Hxy : xnat y = wnat (wname y)).
+    { unfold xnat, Synth.wnat, width_of. rewrite (inc_find 0 _ y Hids Hy). reflexivity. }
+    pose proof (lookup_width merge nl Hids Hw y (vec_decl merge nl y Hm Hy Hio)) as Wy.
+    rewrite (run_cat merge nl Hids Hw st bv vf (wname y) (xnat y) (wname y)).
+    2:{ rewrite Wy. unfold xnat. lia. }
+    2:{ intros i Hi. rewrite Hxy in Hi.
+        destruct (bit_static merge nl Hids Hw (wname y) i Hi) as (_ & _ & _ & _ & Q1 & _).
+        split; [assumption|]. apply Hbits; [left; reflexivity|lia]. }
+    set (vf1 := upd vf (wname y) (bits_val bv (wname y) (xnat y))).
+    destruct (IH (wname y) vf1 H2 (fun x Hx => Hsub x (or_intror Hx))) as [I1 I2].
+    { intros x i Hx Hi. unfold vf1. rewrite upd_other; [apply Hbits; [right; assumption|assumption]|].
+      destruct (Hsub x (or_intror Hx)) as [Hxw _].
+      assert (Hxx : xnat x = wnat (wname x)).
+      { unfold xnat, Synth.wnat, width_of. rewrite (inc_find 0 _ x Hids Hxw). reflexivity. }
+      rewrite Hxx in Hi.
+      destruct (bit_static merge nl Hids Hw (wname x) i Hi) as (_ & _ & _ & _ & _ & _ & Q2 & _). lia. }
+    cbv zeta in I1, I2. split.
+    + intros x [<-|Hx]; [|apply I1; assumption].
+      rewrite I2; [unfold vf1; apply upd_same|].
+      intros x' Hx' E. pose proof (inc_lower _ _ _ H2 Hx'). lia.
+    + intros id Hid. rewrite I2 by (intros x Hx; apply Hid; right; assumption).
+      unfold vf1. apply upd_other. apply Hid. left. reflexivity.
+Qed.
+
+Lemma emit_gnets_app l1 : forall l2 base,
+  emit_gnets nl (l1 ++ l2) base
+  = (fst (emit_gnets nl l1 base) ++ fst (emit_gnets nl l2 (base + gnets_size l1)),
+     snd (emit_gnets nl l1 base) ++ snd (emit_gnets nl l2 (base + gnets_size l1))).
+Proof.
+  induction l1 as [|g r IH]; intros l2 base.
+  - cbn [app emit_gnets fst snd gnets_size fold_right]. rewrite Z.add_0_r. destruct (emit_gnets nl l2 base); reflexivity.
+  - cbn [app]. rewrite !emit_gnets_cons, IH. cbn [fst snd].
+    change (gnets_size (g :: r)) with (gnet_size g + gnets_size r).
+    rewrite !app_assoc, Z.add_assoc. reflexivity.
+Qed.
+
+(* ---- the cycle-start valuation after the input selects ---- *)
+Definition vfI : wid -> Z := runs (in_nets merge nl) vf0.
+
+Lemma orig_unique x y : In x (wires nl) -> In y (wires nl) -> wname x = wname y -> x = y.
+Proof.
+  intros Hx Hy E. pose proof (inc_find 0 _ x Hids Hx) as Fx. pose proof (inc_find 0 _ y Hids Hy) as Fy.
+  rewrite E in Fx. congruence.
+Qed.
+
+Lemma in_nets_cases :
+  (merge = true /\ in_nets merge nl
+     = flat_map (fun x => map (fun i => mkNet (OpSelect [Z.of_nat i]) [wname x] (bid (wname x) i))
+                              (seq 0 (xnat x))) (filter is_in (wires nl)))
+  \/ (merge = false /\ in_nets merge nl = []).
+Proof. unfold in_nets. destruct merge; [left|right]; split; reflexivity. Qed.
+
+Lemma vfI_frame id : (forall x i, In x (wires nl) -> wkind x = KInput -> (i < xnat x)%nat -> id <> bid (wname x) i) ->
+  vfI id = vf0 id.
+Proof.
+  intro H. unfold vfI. destruct (in_nets_cases) as [[Em Ein]|[Em Ein]]; rewrite Ein; [|reflexivity].
+  destruct (in_nets_sound (filter is_in (wires nl)) 0 vf0) as [_ S2].
+  - apply inc_filter. exact Hids.
+  - intros x Hx. apply filter_In in Hx. tauto.
+  - apply S2. intros x i Hx Hi. apply filter_In in Hx. destruct Hx as [Hx Hk].
+    apply H; try assumption. unfold is_in in Hk. destruct (wkind x); try discriminate; reflexivity.
+Qed.
+
+Lemma base_inv : Inv (rdy0 nl) vfI (gbase nl gst ins).
+Proof.
+  pose proof Hwidths as Hw.
+  intros a Ha i Hi. unfold WFDefs.rdy0 in Ha. apply filter_In in Ha. destruct Ha as [_ Hb].
+  unfold WFDefs.is_base in Hb.
+  destruct (bit_static merge nl Hids Hw a i Hi) as (x & Hx & Hn & Hf & W & K & R & P & Ik).
+  rewrite Hf in Hb.
+  assert (Hxn : (i < xnat x)%nat).
+  { unfold Synth.wnat, width_of in Hi. rewrite Hf in Hi. exact Hi. }
+  pose proof (bit_decl merge nl Hids Hw x i Hx Hxn) as Hd. rewrite Hn in Hd.
+  pose proof (base_of_decl _ Hd) as Hv. cbn [wname wkind] in Hv.
+  unfold gbase. rewrite Hf.
+  assert (Hnotin : wkind x <> KInput -> vfI (bid a i) = vf0 (bid a i)).
+  { intro Hk. apply vfI_frame. intros y k Hy Hyk Hkk E.
+    assert (Hyy : xnat y = wnat (wname y)).
+    { unfold xnat, Synth.wnat, width_of. rewrite (inc_find 0 _ y Hids Hy). reflexivity. }
+    revert E. apply (bid_neq merge nl Hids Hw); [assumption|lia|].
+    intro E. apply Hk. rewrite <- Hn in E. rewrite (orig_unique x y Hx Hy E). assumption. }
+  unfold bit_kind in Hv. destruct (wkind x) eqn:Ek; try discriminate Hb.
+  - (* input *)
+    destruct (in_nets_cases) as [[Em Ein]|[Em Ein]].
+    + unfold vfI. rewrite Ein.
+      destruct (in_nets_sound (filter is_in (wires nl)) 0 vf0) as [S1 _].
+      * apply inc_filter. exact Hids.
+      * intros y Hy. apply filter_In in Hy. tauto.
+      * cbv zeta in S1. rewrite <- Hn. rewrite (S1 x i).
+        -- f_equal. f_equal.
+           assert (Hio : is_io x = true) by (unfold is_io; rewrite Ek; reflexivity).
+           pose proof (vec_decl merge nl x Em Hx Hio) as Hvd.
+           rewrite (base_of_decl x Hvd), Ek. unfold flat_ins.
+           destruct (wire_bounds nl Hids Hw x Hx) as [B1 _].
+           destruct (wname x <? NN) eqn:E; [reflexivity|lia].
+        -- apply filter_In. split; [assumption|]. unfold is_in. rewrite Ek. reflexivity.
+        -- assumption.
+    + unfold vfI. rewrite Ein. unfold FlattenProofs.runs. cbn [fold_left].
+      rewrite Hv. rewrite Em. apply flat_ins_bit; assumption.
+  - (* const *)
+    rewrite Hnotin by discriminate. rewrite Hv. apply const_bit_01.
+  - (* register *)
+    rewrite Hnotin by discriminate. rewrite Hv. apply HR; [|assumption].
+    unfold is_reg_w, kind_of. rewrite Hf, Ek. reflexivity.
+Qed.
+
+
+(* ---- assembling the combinational phase ---- *)
+Local Notation gsC := (map (synth_net nl) (comb_nets nl)).
+Local Notation gsS := (map (synth_net nl) (seq_nets nl)).
+Definition baseS : Z := T0 + gnets_size gsC.
+Definition vfC : wid -> Z := runs (fst (emit_gnets nl gsC T0)) vfI.
+Definition vfS : wid -> Z := runs (fst (emit_gnets nl gsS baseS)) vfC.
+Definition vfF : wid -> Z := runs (out_nets merge nl) vfS.
+Definition bvF : wid -> nat -> bool := fst (gstep nl gst ins).
+
+Lemma comb_eq : comb nl' st vf0 = vfF.
+Proof.
+  change (comb nl' st vf0) with (runs (nets nl') vf0).
+  unfold vfF, vfS, vfC, vfI, baseS. rewrite (flatten_nets merge nl). unfold osynth.
+  rewrite emit_gnets_app. cbn [fst]. rewrite !runs_app. reflexivity.
+Qed.
+
+Lemma bv_eq : fold_left (gnet_exec nl gst) gsC (gbase nl gst ins) = bvF.
+Proof.
+  unfold bvF, gstep. cbn [fst].
+  rewrite (fold_left_map_ext _ (gexec nl gst) _ _ (exec_structure nl gst)).
+  unfold comb_nets. apply fold_filter_id. intros bv n Hc. unfold gexec.
+  destruct (nop n); try discriminate Hc; reflexivity.
+Qed.
+
+Lemma wr_post_frame gs : forall base vf vf' bv, 0 <= 0 ->
+  (forall id, base <= id -> vf' id = vf id) -> wr_post gs base vf bv -> wr_post gs base vf' bv.
+Proof.
+  induction gs as [|g r IH]; intros base vf vf' bv _ Hfr H; [exact I|].
+  cbn [wr_post] in *. destruct H as [H1 H2]. pose proof (gnet_size_nonneg g). split.
+  - apply (seg_post_frame g base vf); [|assumption]. intros id Hid. apply Hfr. lia.
+  - apply (IH _ vf); [lia| |assumption]. intros id Hid. apply Hfr. lia.
+Qed.
+
+Lemma temps_ge d : In d (snd (emit_gnets nl (osynth nl) T0)) -> T0 <= wname d.
+Proof.
+  intro H. destruct (emit_gnets_wires nl (osynth nl) T0) as [W1 _].
+  pose proof (inc_lower _ _ _ W1 H). lia.
+Qed.
+
+Lemma bid_lt_T0 a i : (i < wnat a)%nat -> bid a i < T0.
+Proof. intro Hi. destruct (bit_static merge nl Hids Hwidths a i Hi) as (_ & _ & _ & _ & _ & _ & R & _). lia. Qed.
+
+Lemma xnat_wnat x : In x (wires nl) -> xnat x = wnat (wname x).
+Proof. intro Hx. unfold xnat, Synth.wnat, width_of. rewrite (inc_find 0 _ x Hids Hx). reflexivity. Qed.
+
+Lemma decl_all : decl_ok merge nl (snd (emit_gnets nl (osynth nl) T0)) vfI.
+Proof.
+  split; [apply temp_decl|]. intros d c Hd Hk.
+  rewrite vfI_frame.
+  - rewrite (base_of_decl d (temp_decl merge nl d Hd)), Hk. reflexivity.
+  - intros x i Hx _ Hi E. pose proof (temps_ge d Hd). rewrite (xnat_wnat x Hx) in Hi.
+    pose proof (bid_lt_T0 (wname x) i Hi). lia.
+Qed.
+
+Theorem comb_phase :
+  Inv (rdy_final nl) vfF bvF
+  /\ wr_post gsS baseS vfF bvF
+  /\ (merge = true -> forall x, In x (wires nl) -> is_out x = true ->
+        vfF (wname x) = bits_val bvF (wname x) (wnat (wname x))).
+Proof.
+  pose proof Hwidths as Hw.
+  destruct (wfb_parts nl Hwf) as (_ & _ & Hnets & Hseq & Hall).
+  destruct (nets_ok_filter nl (nets nl) (rdy0 nl) Hnets) as [HnC HrC]. fold (comb_nets nl) in HnC, HrC.
+  pose proof decl_all as Hdecl. unfold osynth in Hdecl. rewrite emit_gnets_app in Hdecl. cbn [snd] in Hdecl.
+  apply (decl_split merge nl) in Hdecl. destruct Hdecl as [HdC HdS]. fold baseS in HdS.
+  pose proof (gnets_size_nonneg gsC) as GC. pose proof (gnets_size_nonneg gsS) as GS.
+  (* combinational groups *)
+  destruct (comb_list merge nl Hids Hw st gst (proj2 HR) (comb_nets nl) (rdy0 nl) T0 vfI (gbase nl gst ins))
+    as [C1 C2]; try assumption; try lia.
+  { intros n Hn. unfold comb_nets in Hn. apply filter_In in Hn. destruct Hn as [Hn Hc]. split; [assumption|].
+    unfold synth_okb in Hsy. rewrite forallb_forall in Hsy. auto. }
+  { apply base_inv. }
+  cbv zeta in C1, C2. fold vfC in C1, C2. rewrite bv_eq in C1. rewrite HrC in C1. fold (rdy_final nl) in C1.
+  (* register and write-port groups *)
+  assert (HdS' : decl_ok merge nl (snd (emit_gnets nl gsS baseS)) vfC).
+  { apply (decl_frame merge nl _ vfI vfC baseS); [assumption|apply emit_gnets_wires|].
+    intros id Hid. apply C2; [unfold baseS in Hid; lia|].
+    intros n k _ Hk. pose proof (bid_lt_T0 (ndest n) k Hk). unfold baseS in Hid. lia. }
+  destruct (seq_list merge nl Hids Hw st (rdy_final nl) bvF (seq_nets nl) baseS vfC) as [S1 S2];
+    try assumption; try (unfold baseS; lia).
+  { intros n Hn. unfold seq_nets in Hn. apply filter_In in Hn. destruct Hn as [Hn Hc].
+    apply negb_true_iff in Hc. rewrite forallb_forall in Hseq. specialize (Hseq n Hn). rewrite Hc in Hseq.
+    apply andb_true_iff in Hseq. destruct Hseq as [Ha Har]. split; [assumption|]. split; [|assumption].
+    intros a Hain. apply mem_in_In. rewrite forallb_forall in Ha. auto. }
+  cbv zeta in S1, S2. fold vfS in S1, S2.
+  assert (IS : Inv (rdy_final nl) vfS bvF).
+  { apply (inv_frame merge nl Hids Hw (rdy_final nl) vfC vfS bvF baseS); [unfold baseS; lia|assumption|].
+    intros id Hid. apply S1. lia. }
+  (* output vectors *)
+  unfold vfF, out_nets. destruct (Bool.bool_dec merge true) as [Em|Em].
+  - assert (Eout : (if merge then map (fun x => cat_net nl (wname x) (xnat x) (wname x)) (filter is_out (wires nl)) else [])
+                   = map (fun x => cat_net nl (wname x) (xnat x) (wname x)) (filter is_out (wires nl)))
+      by (destruct merge; [reflexivity|congruence]).
+    rewrite Eout.
+    destruct (out_nets_sound bvF Em (filter is_out (wires nl)) 0 vfS) as [O1 O2].
+    + apply inc_filter. exact Hids.
+    + intros x Hx. apply filter_In in Hx. destruct Hx as [Hx Hk]. split; [assumption|].
+      unfold is_out in Hk. unfold is_io. destruct (wkind x); try discriminate; reflexivity.
+    + intros x i Hx Hi. apply filter_In in Hx. destruct Hx as [Hx _]. apply IS.
+      * rewrite forallb_forall in Hall. apply mem_in_In. apply Hall. assumption.
+      * rewrite <- (xnat_wnat x Hx). assumption.
+    + cbv zeta in O1, O2.
+      assert (Hfr : forall id, NN <= id ->
+                runs (map (fun x => cat_net nl (wname x) (xnat x) (wname x)) (filter is_out (wires nl))) vfS id = vfS id).
+      { intros id Hid. apply O2. intros x Hx E. apply filter_In in Hx. destruct Hx as [Hx _].
+        destruct (wire_bounds nl Hids Hw x Hx). lia. }
+      split; [|split].
+      * intros a Ha i Hi. rewrite Hfr; [apply IS; assumption|].
+        destruct (bit_static merge nl Hids Hw a i Hi) as (_ & _ & _ & _ & _ & _ & R & _). lia.
+      * apply (wr_post_frame gsS baseS vfS); [lia| |assumption].
+        intros id Hid. apply Hfr. unfold baseS, Flatten.T0 in Hid.
+        pose proof (KK_pos nl Hids Hw). pose proof (NN_pos nl Hids Hw). nia.
+      * intros _ x Hx Hk. rewrite <- (xnat_wnat x Hx). apply O1. apply filter_In. split; assumption.
+  - assert (Eout : (if merge then map (fun x => cat_net nl (wname x) (xnat x) (wname x)) (filter is_out (wires nl)) else [])
+                   = []) by (destruct merge; [congruence|reflexivity]).
+    rewrite Eout. unfold FlattenProofs.runs. cbn [fold_left].
+    split; [assumption|]. split; [assumption|]. intros E. contradiction.
+Qed.
+
+End FlatFinal.
